@@ -4,12 +4,13 @@
 # the copy, print the checks that report a violation. Nothing is left behind; /repo itself is never modified.
 set -u
 V=/verif
+SD=${SEED_DIR:-/verif/seeded}
 cd $V
 names=("$@")
-if [ ${#names[@]} -eq 0 ]; then names=($(ls $V/seeded 2>/dev/null)); fi
+if [ ${#names[@]} -eq 0 ]; then names=($(ls $SD 2>/dev/null)); fi
 ids=$(python3 -c "import json;print(' '.join(c['property_id'] for c in json.load(open('$V/MANIFEST.json'))['checks']))")
 for n in "${names[@]}"; do
-  P=$V/seeded/$n/patch.diff
+  P=$SD/$n/patch.diff
   [ -f "$P" ] || { echo "$n: no patch.diff"; continue; }
   D=$(mktemp -d /tmp/gdseed.XXXXXX)
   rsync -a --exclude target --exclude .git /repo/ "$D/"
@@ -23,7 +24,7 @@ for n in "${names[@]}"; do
       echo "   $n: $id -> $k"
     fi
   done
-  want=$(python3 -c "import json;print(json.load(open('$V/seeded/$n/meta.json')).get('property',''))" 2>/dev/null)
+  want=$(python3 -c "import json;print(json.load(open('$SD/$n/meta.json')).get('property',''))" 2>/dev/null)
   echo "$n (breaks $want): caught by:${hit:- NONE}"
   rm -rf "$D"
 done
